@@ -30,6 +30,12 @@ Theorem C08_missing_column_is_null n r i : (i < n)%nat ->
   nth_error (row_values n r) i = Some VNull.
 Proof. exact (missing_column_is_null n r i). Qed.
 
+(* finding F-C08-2, on the model: INSERT 5.0; DELETE 5.0; INSERT 5 — every statement succeeds and the
+   key that comes back is 5.0 (REAL), not the 5 (INTEGER) the last INSERT was given: the tree
+   replaces the value of an equal key and keeps the stored key *)
+Theorem C08_reinserted_key_class_refuted : exists tb k_old k_new v, reinsert_shape tb k_old k_new v.
+Proof. exact reinserted_key_class_witness. Qed.
+
 Example C08_nonvacuous :
   bridge_result (VReal 9218868437227405312) = VReal 9218868437227405312 /\
   bridge_result (VBlob []) = VBlob [] /\ bridge_result (VInt (-9223372036854775808)) = VInt (-9223372036854775808).
@@ -40,3 +46,4 @@ Print Assumptions C08_partial.
 Print Assumptions C08_empty_text_refuted.
 Print Assumptions C08_missing_column_is_null.
 Print Assumptions C08_nonvacuous.
+Print Assumptions C08_reinserted_key_class_refuted.
